@@ -1,0 +1,122 @@
+//go:build verif
+
+// Verification contracts for the consumer-group coordinator (pkg/broker/coordinator.go); comment-only, read by
+// /verif/govc. One function can carry only one contract block, so this file holds the clauses of every
+// coordinator property (tags C12.*, C13.*, C14.*, C43.*); the props files select them by tag.
+//
+// Reading of the lock discipline: every public method of GroupCoordinator runs under c.mu from its first to its
+// last access of c.groups; the contracts below describe one such critical section executed atomically
+// (sequential semantics). OffsetCommit performs its store writes after releasing c.mu: the check it makes under
+// the lock is what the contract calls "the group's current state".
+//
+// seen(N, k) / rangecnt(N): ghost view of map-range loop N (keys produced so far, how many).
+
+package broker
+
+// Representation facts of one group: maps allocated, no nil member entry.
+//@ spec func groupOK(s *groupState) bool = s != nil && s.members != nil && s.assignments != nil && (forall k string :: has(s.members, k) ==> mapval(s.members, k) != nil)
+
+// All current members have joined the current generation.
+//@ spec func allJoined(s *groupState) bool = forall k string :: has(s.members, k) ==> mapval(s.members, k).joinGeneration == s.generationID
+
+//@ func (s *groupState) completeIfReady
+//@   opaque_strings
+//@   requires groupOK(s)
+//@   ensures [C14.complete_iff_all_joined] result == (len(s.members) != 0 && allJoined(s))
+//@   ensures [C14.complete_sets_phase] result ==> s.state == groupStateCompletingRebalance
+//@   ensures [C14.not_ready_changes_nothing] !result ==> s.state == old(s.state) && s.rebalanceDeadline == old(s.rebalanceDeadline)
+//@   ensures s.members == old(s.members) && s.assignments == old(s.assignments) && s.generationID == old(s.generationID) && s.leaderID == old(s.leaderID)
+//@   loop 1 invariant forall k string :: seen(1, k) ==> has(s.members, k) && mapval(s.members, k).joinGeneration == s.generationID
+
+// sortedMembers: a new slice holding exactly the member ids (each id of the map occurs, nothing else occurs).
+//@ func (s *groupState) sortedMembers
+//@   opaque_strings
+//@   returns_fresh
+//@   ensures len(result) == len(s.members)
+//@   ensures forall i int :: 0 <= i && i < len(result) ==> has(s.members, result[i])
+//@   ensures forall k string :: has(s.members, k) ==> exists i int :: 0 <= i && i < len(result) && result[i] == k
+//@   ensures keepsMem("string")
+//@   loop 1 invariant len(ids) == rangecnt(1) && fresh(ids) && keepsMem("string")
+//@   loop 1 invariant forall i int :: 0 <= i && i < len(ids) ==> has(s.members, ids[i])
+//@   loop 1 invariant forall k string :: seen(1, k) ==> exists i int :: 0 <= i && i < len(ids) && ids[i] == k
+
+// ensureLeader: afterwards the leader is a member (or "" when the group is empty); a valid leader is kept.
+//@ func (s *groupState) ensureLeader
+//@   opaque_strings
+//@   requires s.members != nil
+//@   ensures [C14.leader_is_member] ite(len(s.members) == 0, s.leaderID == "" || has(s.members, s.leaderID), has(s.members, s.leaderID))
+//@   ensures [C14.valid_leader_kept] old(s.leaderID) != "" && has(s.members, old(s.leaderID)) ==> s.leaderID == old(s.leaderID)
+//@   ensures s.members == old(s.members) && s.assignments == old(s.assignments) && s.generationID == old(s.generationID) && s.state == old(s.state) && s.rebalanceDeadline == old(s.rebalanceDeadline) && s.rebalanceTimeout == old(s.rebalanceTimeout)
+//@   ensures keepsMem("string") && (forall g *groupState :: g != s ==> g.leaderID == old(g.leaderID))
+
+// startRebalance: a non-empty group moves to the next generation in PreparingRebalance with no assignments and
+// every member marked "not yet rejoined"; an empty group becomes Empty and keeps its generation.
+//@ func (s *groupState) startRebalance
+//@   opaque_strings
+//@   requires groupOK(s)
+//@   ensures [C13.generation_increases] len(s.members) != 0 && old(s.generationID) < 2147483647 ==> s.generationID == old(s.generationID) + 1
+//@   ensures [C13.empty_group_keeps_generation] len(s.members) == 0 ==> s.generationID == old(s.generationID) && s.state == groupStateEmpty && s.leaderID == ""
+//@   ensures [C14.rebalance_starts_preparing] len(s.members) != 0 ==> s.state == groupStatePreparingRebalance && has(s.members, s.leaderID) && (old(s.leaderID) != "" && has(s.members, old(s.leaderID)) ==> s.leaderID == old(s.leaderID))
+//@   ensures [C14.rebalance_resets_joins] len(s.members) != 0 ==> forall k string :: has(s.members, k) ==> mapval(s.members, k).joinGeneration == 0
+//@   ensures [C12.rebalance_clears_assignments] s.assignments != nil && fresh(s.assignments) && len(s.assignments) == 0 && (forall k string :: !has(s.assignments, k))
+//@   ensures s.members == old(s.members) && keepsMap("string", "*memberState") && keepsMem("string") && keepsField("memberState", "topics") && keepsField("memberState", "sessionTimeout") && keepsField("memberState", "lastHeartbeat")
+//@   loop 1 invariant forall k string :: seen(1, k) ==> mapval(s.members, k).joinGeneration == 0
+
+// Representation invariant of the coordinator (assumed at entry of every public method, re-established at exit).
+//@ spec func coordOK(c *GroupCoordinator) bool = c.groups != nil && !isNilIface(c.store) && (forall g string :: has(c.groups, g) ==> groupOK(mapval(c.groups, g)))
+
+// "member m of generation gen is current in group g": g is cached, m is one of its members, gen is its generation.
+//@ spec func current(c *GroupCoordinator, g string, m string, gen int32) bool = has(c.groups, g) && has(c.groups[g].members, m) && gen == c.groups[g].generationID
+
+// Nothing reachable from a group that existed at entry has changed (group fields, member fields, membership, assignments).
+//@ spec func groupsUntouched() bool = keepsField("groupState", "*") && keepsField("memberState", "*") && keepsMap("string", "*memberState") && keepsMap("string", "[]assignmentTopic")
+
+// restoreGroupState: a newly allocated, well-formed group; nothing that existed before is modified.
+//@ func restoreGroupState
+//@   opaque_strings
+//@   merge_branches
+//@   returns_fresh
+//@   requires storedGroupOK(group)
+//@   ensures result != nil && groupOK(result) && fresh(result.members) && fresh(result.assignments)
+//@   ensures [C13.restore_keeps_generation] result.generationID == group.GenerationId
+//@   ensures keepsField("groupState", "*")
+//@   ensures keepsField("memberState", "*")
+//@   ensures keepsMap("string", "*memberState") && keepsMap("string", "[]assignmentTopic") && keepsMap("string", "*groupState")
+//@   loop 1 invariant state != nil && fresh(state) && state.members != nil && fresh(state.members) && state.assignments != nil && fresh(state.assignments) && state.generationID == group.GenerationId
+//@   loop 1 invariant forall k string :: has(state.members, k) ==> mapval(state.members, k) != nil
+//@   loop 1 invariant groupsUntouched() && keepsMap("string", "*groupState")
+//@   loop 2 invariant state != nil && fresh(state) && state.members != nil && fresh(state.members) && state.assignments != nil && fresh(state.assignments) && state.generationID == group.GenerationId
+//@   loop 2 invariant forall k string :: has(state.members, k) ==> mapval(state.members, k) != nil
+//@   loop 2 invariant groupsUntouched() && keepsMap("string", "*groupState") && -1 <= rangeindex && rangeindex < len(member.Assignments)
+//@   loop 2 invariant has(group.Members, memberID) && member == mapval(group.Members, memberID)
+
+// loadGroupIfMissing: returns the cached group, or caches and returns the group restored from the store; never
+// modifies a group that was already cached.
+//@ func (c *GroupCoordinator) loadGroupIfMissing
+//@   opaque_strings
+//@   requires coordOK(c)
+//@   ensures err != nil ==> result0 == nil
+//@   ensures has(old(c.groups), groupID) ==> err == nil && result0 == old(c.groups[groupID])
+//@   ensures result0 != nil ==> has(c.groups, groupID) && c.groups[groupID] == result0
+//@   ensures result0 == nil ==> !has(c.groups, groupID)
+//@   ensures [C13.load_adds_only_requested_group] forall g string :: g != groupID || has(old(c.groups), groupID) ==> has(c.groups, g) == old(has(c.groups, g)) && mapval(c.groups, g) == old(mapval(c.groups, g))
+//@   ensures coordOK(c) && c.groups == old(c.groups) && c.store == old(c.store) && groupsUntouched()
+
+//@ func (c *GroupCoordinator) persistGroupLocked
+//@   nullable state
+//@   modular
+//@ func (c *GroupCoordinator) assignPartitions
+//@   modular
+//@ func encodeAssignment
+//@   modular
+
+//@ func (c *GroupCoordinator) Heartbeat
+//@   opaque_strings
+//@   requires coordOK(c)
+//@   ensures [C13.heartbeat_fenced] !current(c, req.Group, req.MemberID, req.Generation) ==> result.ErrorCode != protocol.NONE
+//@   ensures [C13.heartbeat_unknown_member] has(c.groups, req.Group) && !has(c.groups[req.Group].members, req.MemberID) ==> result.ErrorCode == protocol.UNKNOWN_MEMBER_ID
+//@   ensures [C13.heartbeat_stale_generation] has(c.groups, req.Group) && has(c.groups[req.Group].members, req.MemberID) && c.groups[req.Group].members[req.MemberID] != nil && req.Generation != c.groups[req.Group].generationID ==> result.ErrorCode == protocol.ILLEGAL_GENERATION
+//@   ensures [C13.heartbeat_fenced_changes_nothing] !current(c, req.Group, req.MemberID, req.Generation) ==> groupsUntouched()
+//@   at persistGroupLocked#1 before assert [C13.heartbeat_persists_only_current] current(c, req.Group, req.MemberID, req.Generation) && state == c.groups[req.Group]
+//@   ensures [C13.heartbeat_keeps_generation] keepsField("groupState", "generationID") && (forall g string :: has(old(c.groups), g) ==> has(c.groups, g) && mapval(c.groups, g) == old(mapval(c.groups, g)))
+//@   ensures coordOK(c)
